@@ -36,3 +36,12 @@ Theorem C17_readers_first : forall c, wf_netlist c -> forall n i, index_of n (rt
   (Nat.eqb (connected (n_outs (get_node c n))) 0 || is_seq (get_node c n)) = false ->
   forall r, In r (readers c n) -> exists j, index_of r (rtopo_order c) = Some j /\ j < i.
 Proof. exact rtopo_readers_first. Qed.
+
+(** prefix lookups: every dictionary level with integer keys (bus indices) is listed in ascending NUMERIC key order --
+    LSB first, not lexicographically; nested levels give nested lists (Model/Locs.v transcribes _locs) *)
+From KV Require Import Model.Locs.
+From KV Require Proofs.LocsProofs.
+From Coq Require Import Sorted.
+Theorem C17_locs_numeric_order : forall l, KV.Proofs.LocsProofs.int_keys l ->
+  Sorted (fun a b => KV.Proofs.LocsProofs.nkey a <= KV.Proofs.LocsProofs.nkey b) (sort_kids l) /\ Permutation (sort_kids l) l.
+Proof. exact KV.Proofs.LocsProofs.sort_kids_numeric. Qed.
